@@ -431,6 +431,9 @@ func (fr *fzRun) finish() {
 	w := fr.w
 	fr.res.SimNanos = int64(w.Now())
 	fr.res.Steps = w.Steps
+	for k, v := range w.Probes() {
+		fr.res.Stats[k] += int64(v)
+	}
 	fr.res.Shape = hashStrings(fr.shape)
 	if f := os.Getenv("VERIF_SHAPE_FILE"); f != "" {
 		os.WriteFile(f, []byte(strings.Join(fr.shape, "\n")+"\n"), 0644)
